@@ -41,7 +41,7 @@ ENCODED = ["twisted.web._newclient:HTTPParser.lineReceived", "twisted.web._newcl
 BOUNDS = {"quick": {"nb": 2}, "thorough": {"nb": 3}}
 B = {}
 BOUNDS_TEXT = ("8 response shapes (GET 200 Content-Length / chunked / close-delimited / 100-then-200; GET 204; GET 304; "
-               "HEAD 200 with Content-Length; HEAD 200 chunked), body of 0..nb symbolic bytes (+ one symbolic byte in a "
+               "HEAD 200 with Content-Length; HEAD 200 chunked), body of 0 or nb (thorough: 0..nb) symbolic bytes (+ one symbolic byte in a "
                "header value), stream <= 90 bytes; family `k`: connection lost after every number k of bytes, one "
                "delivery; family `split`: whole stream, two deliveries at every split index; body protocol attached "
                "when the response arrives or after the connection is gone; parser level and protocol level")
@@ -442,7 +442,7 @@ def _shards(tier):
     out = []
     nb = BOUNDS[tier]["nb"]
     for s in range(len(SHAPES)):
-        lens = [nb] if s >= 4 else list(range(0, nb + 1))
+        lens = [nb] if s >= 4 else ([0, nb] if tier == "quick" else list(range(0, nb + 1)))
         for n in lens:
             out.append(("shape == %d" % s, "len(body) == %d" % n, "split == 0"))            # family k
             out.append(("shape == %d" % s, "len(body) == %d" % n, "k == -1", "split >= 1"))  # family split
